@@ -7,7 +7,7 @@ import strobs
 RULE = ("chains of k = 1..4 (quick) / 1..8 (thorough) sequential requests on one buffer through the conversion chain "
         "(request parser -> stream parser -> request parser ...), per-request reader policy never / mid-record / to the end (with direct "
         "and buffered reads), random look-ahead (the request parser reads greedily, so hand-offs happen with 0..full-buffer bytes buffered, "
-        "ending mid-header / mid-payload / mid-padding), buffer sizes 64..8192 and read chunk patterns; plus into_input at record boundaries. "
+        "ending mid-header / mid-payload / mid-padding), buffer sizes 64..8192 and read chunk patterns; plus into_input at record boundaries; plus long (256..1025-byte) records skipped byte by byte with is_record_boundary / into_input / conversion asked at every amount of outstanding payload. "
         "Oracle: every request of the chain shows exactly its own id/role/flags/environment and delivered stream bytes are a prefix of its own "
         "stream. Non-trivial: k >= 2 or partial reading; distinct = distinct case lines.")
 ASSUMPTIONS = ["each request's pairs satisfy the documented buffer bound"]
@@ -67,12 +67,87 @@ def gen_cases(rng, tier):
         yield "str_run " + " ".join(fmt_arg(x) for x in [[256], [3], w] + ops), ["into-input"]
 
 
+def gen_boundary_cases(rng, tier):
+    """a caller that stops reading INSIDE a long record: the parser is told to skip (set_stream(None)) and fed byte by byte, so
+    that every amount of outstanding payload (in particular 256, 512, ...) occurs at a point where the caller asks
+    is_record_boundary / into_input / converts back"""
+    quick = tier == "quick"
+    for _ in range(6 if quick else 120):
+        P = rng.choice([256, 257, 300, 511, 512, 513, 600, 777, 1025])
+        pad = rng.choice([0, 0, 0, 3])
+        recs = minimal_preamble(1, 1) + [record(STDIN, 1, [rng.randrange(256) for _ in range(P)], pad), record(STDIN, 1, [], 0)]
+        nxt = flat(minimal_preamble(2, 1))
+        w = flat(recs) + nxt
+        stop = rng.randrange(8, P + 8 + pad + 8)
+        tail = rng.choice([[8], [6, len(nxt)], [0, 0]])
+        ops = [[5, 0]] + [[0, 1], [3]] * stop + [tail]
+        yield "str_run " + " ".join(fmt_arg(x) for x in [[64, len(flat(recs))], [3], w] + ops), ["boundary-flag"]
+
+
+_gen_cases_chain = gen_cases
+
+
+def gen_cases(rng, tier):
+    yield from _gen_cases_chain(rng, tier)
+    yield from gen_boundary_cases(rng, tier)
+
+
+def a_gate(ops, o, wire):
+    return BOUNDARY_GATE.get("gate", len(wire))
+
+
+BOUNDARY_GATE = {}
+
+
+def boundary_rule(wire, ops, o):
+    """is_record_boundary may be reported only when the bytes given to the stream parser end inside a record header (or
+    exactly between records): never inside a payload or padding"""
+    recs, _ = parse_records(wire)
+    # the stream section starts after the empty Params record of the first request
+    off, start = 0, None
+    layout = []
+    for t, rid, body, pad in recs:
+        ln = 8 + len(body) + pad
+        if start is not None:
+            layout.append((off - start, ln))
+        if start is None and t == PARAMS and not body:
+            start = off + ln
+        off += ln
+    if start is None or len(o) < 3:
+        return True
+    fed = len(o[2])                      # look-ahead handed over by the request parser
+    gate = a_gate(ops, o, wire)
+    avail = gate - start - fed           # client bytes of the stream section not yet given to the parser
+    space = o[0][2] if len(o[0]) > 2 else 0
+    skipping = False
+    for op, ev in strobs.walk(ops, o):
+        if ev["kind"] == "set_stream" and op[1] == 0 and ev["accepted"]:
+            skipping = True
+        elif ev["kind"] == "compress":
+            space = ev["space"]
+        elif ev["kind"] == "parse":
+            if not skipping or op[0] != 0 or not ev["ok"]:
+                return True
+            n = max(0, min(op[1], space, avail))
+            fed += n
+            avail -= n
+            space = ev["space"]
+            if ev["boundary"] == 1:
+                inside = [s for s, ln in layout if s + 8 <= fed < s + ln]
+                if inside:
+                    return ("is_record_boundary reported inside a record: %d bytes of the record at stream offset %d are still "
+                            "outstanding" % (inside[0] + [ln for s, ln in layout if s == inside[0]][0] - fed, inside[0]))
+        else:
+            return True
+    return True
+
+
 def nontrivial(line, tags):
     return "k1" not in tags
 
 
 def min_classes(tier):
-    return {"k2": 80, "k3": 80, "k4": 80, "into-input": 100}
+    return {"k2": 80, "k3": 80, "k4": 80, "into-input": 100, "boundary-flag": 6}
 
 
 def oracle(line, impl_line):
@@ -81,6 +156,11 @@ def oracle(line, impl_line):
     if o is None or any(x == [888888] for x in o):
         return "implementation crashed or panicked"
     wire, ops = a[2], a[3:]
+    if ops and ops[0] == [5, 0] and len(ops) > 2 and ops[1] == [0, 1]:
+        BOUNDARY_GATE["gate"] = a[0][1] if len(a[0]) > 1 and a[0][1] else len(wire)
+        v = boundary_rule(wire, ops, o)
+        if v is not True:
+            return v
     recs, _ = parse_records(wire)
     # expected requests, in order: a valid BeginRequest seen while no Params phase is open starts one
     exp = []
